@@ -63,8 +63,9 @@ def run(chk):
     for k, s in tb.items():
         if unparse(s.value) == 'mask.sum()':
             nname = k
-    comp = [s for s in FB.body if isinstance(s, ast.Assign) and isinstance(s.targets[0], ast.Subscript) and unparse(s.targets[0].value) == 'halos']
-    okcomp = mask_ok and nname is not None and len(comp) == 1 and unparse(comp[0].targets[0]) == f'halos[:{nname}]' and unparse(comp[0].value) == 'halos[mask]'
+    from ..core.idioms import compaction, offsets_table
+    comp = [s for s in FB.body if (isinstance(s, ast.Assign) and isinstance(s.targets[0], ast.Subscript) and unparse(s.targets[0].value) == 'halos') or isinstance(s, ast.For)]
+    okcomp = mask_ok and nname is not None and compaction(FB.body, 'halos', 'mask', nname)
     chk.check(okcomp, 'C03-R1', CAT, CLS + '_read_halo_info', 'kept rows compacted to the front of the slot: halos[:n] = halos[mask], n = mask.sum()', f'n = {nname}',
               f'compaction is {unparse(comp[0]) if comp else None} with n = {nname}: kept rows would not be exactly the masked rows in order', node=comp[0] if comp else FB)
     # the per-file count variable
@@ -115,8 +116,7 @@ def run(chk):
               'the per-file halo counts used to split halos among particle files are not the post-filter counts', node=call[0] if call else init)
     ls = src.func(CAT, CLS + '_load_subsamples')
     txt = [unparse(s) for s in walk_no_nested(ls) if isinstance(s, ast.stmt)]
-    okoff = 'halo_file_offsets = np.empty(len(N_halo_per_file) + 1, dtype=np.uint64)' in txt and \
-        'util.cumsum(N_halo_per_file, halo_file_offsets, initial=True, final=True)' in txt
+    okoff = offsets_table(ls, 'halo_file_offsets', 'N_halo_per_file')
     chk.check(okoff, 'C03-R1', CAT, CLS + '_load_subsamples', 'halo_file_offsets = exclusive prefix sum of the per-file counts', '',
               'file row ranges are no longer the prefix sums of the post-filter counts', node=ls)
     order_rules(chk)
